@@ -601,16 +601,16 @@ func (d *vc16Daemon) nonJSON(w http.ResponseWriter, v int) {
 // ---------------------------------------------------------------------------------------------
 
 type vc16Obs struct {
-	Class    string   `json:"class"` // ok | err | hang
-	Status   int      `json:"status"`
-	Err      string   `json:"err,omitempty"`
-	Reqs     []string `json:"reqs"`
-	NConnect int      `json:"nconnect"`
+	Class    string       `json:"class"` // ok | err | hang
+	Status   int          `json:"status"`
+	Err      string       `json:"err,omitempty"`
+	Reqs     []string     `json:"reqs"`
+	NConnect int          `json:"nconnect"`
 	Table    []vC16PinEnt `json:"table"`
-	Consumed int      `json:"consumed"`
-	CapHit   int      `json:"cap_hit"`
-	Runs     int      `json:"runs"`
-	Millis   int64    `json:"ms"`
+	Consumed int          `json:"consumed"`
+	CapHit   int          `json:"cap_hit"`
+	Runs     int          `json:"runs"`
+	Millis   int64        `json:"ms"`
 	lastKind int
 }
 
